@@ -11,6 +11,11 @@ package compactindexsized
 //      declared = real count, i.e. ~10 000 entries per bucket) are first built alone, then 3 times all at once under
 //      GOMAXPROCS 16 and 2; every file must equal the one built alone (whose keys are all looked up, through every reader
 //      of check (a)).
+//  (d) "for any set of distinct keys (each at most 65 535 bytes) ... independently of insertion order, of the declared item
+//      count": single-bucket key sets whose temporary key/value stream is several MiB (3000+ keys of 1000 bytes, 2200+ keys
+//      of 500..4000 bytes, 100+ keys of 30 000..65 535 bytes, 12 000 keys of 150..260 bytes and 100 000 short keys with a
+//      declared count of 1), each built in three insertion orders: all builds fail with an error or all give the same bytes
+//      with every key found with its value (vc04rBigSpill, two value sizes; the 100 000-key set with one of them and in two orders).
 // Every file built alone also goes through the reader checks of c04r_test.go.
 // Oracle signatures (stable): seal-not-deterministic, order-dependent, concurrent-builders-interfere, and those of
 // c04r_test.go (eof-with-full-read-not-served, section-reader-not-served, prefetch-not-served, read-error-masked,
@@ -50,6 +55,10 @@ func TestVerif_C04c(t *testing.T) {
 	if thorough { // three builders as well
 		vc04rConcurrentBuilders(rep, seed+7, ads[:3], []int{20000, 40000, 30000}, rounds, []int{3, 16})
 	}
+
+	// (d) one bucket whose temporary key/value stream is several MiB (long keys / under-declared counts), three insertion orders
+	vc04rBigSpill(rep, seed, vc04raAdapter(8), thorough, true)
+	vc04rBigSpill(rep, seed+3, vc04raAdapter(uint(rng.Pick(1, 36, 48, 252))), thorough, false)
 
 	if err := rep.Write(); err != nil {
 		t.Fatal(err)
